@@ -537,6 +537,11 @@ func (st *tunnelServerStream) readMsgLocked() (data []byte, ok bool, err error) 
 
 		in, ok := st.receiver.dequeue()
 		if !ok {
+			// if the receiver was cancelled because the stream's context ended,
+			// report that instead of a (fabricated) successful empty read
+			if err := st.ctx.Err(); err != nil {
+				return nil, true, err
+			}
 			var err error
 			if halfClosedErr := st.halfClosed.Load(); halfClosedErr != nil {
 				err = halfClosedErr.error
